@@ -20,7 +20,6 @@
 package main
 
 import (
-	"bytes"
 	"encoding/json"
 	"flag"
 	"fmt"
@@ -924,9 +923,9 @@ func selfTest(c *vlib.Ctx, lines []Event) {
 			}
 			a, b := idx[0], idx[len(idx)-1]
 			mut := append([]Event{}, seg...)
-			mut[b].Res += "~"          // another result for the same key
-			mut[a].D = mut[a].D + "~"  // inputs differ after the call
-			mut[a].Fresh = false       // result aliases the inputs
+			mut[b].Res += "~"         // another result for the same key
+			mut[a].D = mut[a].D + "~" // inputs differ after the call
+			mut[a].Fresh = false      // result aliases the inputs
 			rj, err := tlcRejects(c, mut, false)
 			if err != nil {
 				c.Fatal("self test: %v", err)
@@ -995,5 +994,3 @@ func replay(c *vlib.Ctx) {
 	c.Count(1, 1)
 	c.Finish()
 }
-
-var _ = bytes.NewReader
